@@ -125,7 +125,14 @@ def check_prog(prog, stats):
         base_view = (expect.param_list(R), label_view(R))
         # the order in which several calls are merged is not fixed (and the walker looks at calls in nested
         # scopes last): a rewrite may land on another admissible alternative of the same expectation
-        admissible = [base_view] + [(expect.param_list(a), label_view(a)) for a in X.sig]
+        admissible = [base_view]
+        for a in X.sig:
+            names, depths = label_view(a)
+            is_plain = X.kind == 'plain' or (X.kind == 'either' and a is X.sig[-1])
+            if prog['route'] in ('param', 'param_shadow_lambda') and not is_plain:
+                # through the partial object: one level deeper, the partial object itself at 0
+                depths = sorted([(l, d + 1) for l, d in depths] + [(expect.label(b.target), 0)])
+            admissible.append((expect.param_list(a), (names, depths)))
         for k in range(2):
             v = variant(prog, k)
             if v == prog:
